@@ -12,7 +12,10 @@
      stale entries stay in e.ci until reset() does e.ci = e.ci[:0].
    * kind Interface: rv.Elem(), no push.  Nil ptr/interface/map/slice/chan, Invalid, Func: nil.
    * struct fields, array/slice elements, map keys and values are visited in sequence with the
-     same encoder state.
+     same encoder state.  With CheckCircularRef every struct coder -- kStructSimple, kStruct's map
+     branch and kStruct's to-array branch (toarray tag / StructToArray), omitempty or not -- hands a
+     pointer field to encodeValue UN-dereferenced (si.fieldNoAlloc(rv, encBuiltin || !chkCirRef)),
+     so the pointer is pushed like any other: a VStruct field that is a VPtr is an ordinary VPtr.
    * the recursion is bounded by nothing but the Go stack: the model's [d] is the stack budget,
      one unit per nested edge; [OFuel] = the budget is exhausted (a fatal stack overflow in Go,
      or, for pointer/interface chains that the code follows with `goto RV`, a hang).
